@@ -46,7 +46,7 @@ func init() {
 		Run:              run,
 		Replay:           replay,
 		DeathIsViolation: true,
-		QuickBudget:      400,
+		QuickBudget:      1200,
 		ThoroughBudget:   3000,
 	})
 }
